@@ -39,7 +39,7 @@ type profile struct {
 
 func defaultProfile() profile {
 	return profile{
-		encsMain: []string{"I32"}, encsSmall: []string{"String16", "VarEnc", "VarEncH", "VarEncH1", "Type", "TypeOff", "TypeID", "Bytes3", "LenBytes", "U64", "I8", "Int"},
+		encsMain: []string{"I32"}, encsSmall: []string{"String16", "VarEnc", "VarEncH", "VarEncH1", "Type", "TypeOff", "TypeID", "Bytes3", "LenBytes", "U64", "I8", "Int", "NilU32"},
 		insts:  []string{h.InstFresh, h.InstUnm, h.InstProto, h.InstUnmUsed},
 		needQs: true, nilVals: true,
 		quickIDk: 4, quickScafK: 3, thoroughIDk: 6, thoroughScafK: 3, u85k: 3,
@@ -261,6 +261,20 @@ func manyFamilies(sp *spaceCtx, thorough bool) []*h.Scaffolded {
 	}
 	add("U(S12,2)", u122)
 	add("U(S12,2)/2", thin(u122, 2, 1))
+	// two dense levels (257-bit root, twelve 257-bit children) over many identical
+	// two-way nodes (table-compressed short nodes): big and short nodes in one
+	// trie, each pair differing in the high half of its last byte
+	{
+		var keys, keys3 []string
+		for _, a := range s12 {
+			for _, b := range s12 {
+				keys = append(keys, string([]byte{a, b, 0x10}), string([]byte{a, b, 0xf0, 0x01}))
+				keys3 = append(keys3, string([]byte{a, b, 0x5d, 0x01}), string([]byte{a, b, 0x5d, 0x02}), string([]byte{a, b, 0x5d, 0x0e}))
+			}
+		}
+		add("big2-over-pairs(12x12x2)", keys)
+		add("big2-over-triples(12x12x3)", keys3)
+	}
 	// every byte value 0x00..0xff as a label of one 257-bit node (plus the empty
 	// key and a second level below the first, a middle and the last label)
 	{
@@ -615,7 +629,7 @@ func buildPhases(r *h.Run, p profile) []phase {
 			lens = append(lens, t)
 		}
 		lens = append(lens, 1023, 1024, 4097)
-		r.Bounds["tail_sweep"] = fmt.Sprintf("leaf tail lengths 1..%d bytes + {1023, 1024, 4097} x 3 shapes", maxT)
+		r.Bounds["tail_sweep"] = fmt.Sprintf("leaf tail lengths 1..%d bytes + {1023, 1024, 4097} x 4 shapes", maxT)
 		mkq := mk(sp.q2)
 		phases = append(phases, phase{"tail-sweep", func(emit func(u interface{}) bool) {
 			if p.scaffoldFilter != nil && !p.scaffoldFilter("tailsweep") {
@@ -627,6 +641,7 @@ func buildPhases(r *h.Run, p profile) []phase {
 					{"\x11" + x, "\x12", "\x2f" + y + "\x00"},
 					{"app/a", "app/b-" + x, "app/c", "b"},
 					{"\x30" + x + "\x01", "\x30" + x + "\x02" + y, "\x31"},
+					{"\x1f" + x, "\x2a", "\x3b" + y}, // every key alone in its first nibble, the long ones first and last
 				}
 				for si, S := range shapes {
 					sort.Strings(S)
